@@ -74,7 +74,7 @@ def strategy(tier, campaign):
     return st.fixed_dictionaries({
         "kind": st.just("actors"),
         "engine": st.sampled_from(["async", "sync"]),
-        "ops": st.lists(st.sampled_from(["SPAWN_ID", "SPAWN_AUTO", "SPAWN_SYS", "TELL_ID", "TELL_SYS", "TELL_KEY", "NOOP"]), min_size=2, max_size=9),
+        "ops": st.lists(st.sampled_from(["SPAWN_ID", "SPAWN_AUTO", "SPAWN_SYS", "TELL_ID", "TELL_SYS", "TELL_KEY", "TELL_SVC", "NOOP"]), min_size=2, max_size=9),
         "cut": st.integers(1, 9),
     })
 
@@ -292,6 +292,7 @@ def _actor_machines(rec_log):
         "TELL_ID": {"actions": [{"type": "xstate.sendTo", "params": {"to": "par:k1", "event": lambda a: {"type": "PING", "seq": a["event"].payload.get("seq")}}}]},
         "TELL_SYS": {"actions": [{"type": "xstate.sendTo", "params": {"to": "sysk", "event": lambda a: {"type": "PING", "seq": a["event"].payload.get("seq")}}}]},
         "TELL_KEY": {"actions": [{"type": "xstate.sendTo", "params": {"to": "k1", "event": lambda a: {"type": "PING", "seq": a["event"].payload.get("seq")}}}]},
+        "TELL_SVC": {"actions": [{"type": "xstate.sendTo", "params": {"to": "kid", "event": lambda a: {"type": "PING", "seq": a["event"].payload.get("seq")}}}]},
         "NOOP": {"actions": []},
     }}}}
     parent = create_machine(parent_cfg, logic=MachineLogic(services={"kid": kid}))
@@ -311,7 +312,8 @@ def _actor_view(interp):
     def norm(s):
         return {
             "status": s["status"], "context": s["context"], "configuration": s["configuration"],
-            "actors": sorted((_norm_actor_id(k), norm(v["snapshot"])["context"], norm(v["snapshot"])["configuration"], v["src"]) for k, v in s["actors"].items()),
+            "actors": sorted(((_norm_actor_id(k), norm(v["snapshot"])["context"], norm(v["snapshot"])["configuration"], v["src"]) for k, v in s["actors"].items()),
+                             key=lambda t: json.dumps(t, sort_keys=True, default=repr)),
             "system": sorted((k, _norm_actor_id(v)) for k, v in s["system"].items()),
         }
 
